@@ -203,23 +203,8 @@ func floatCountDivs(fn *ssa.Function) []*ssa.BinOp {
 		if !isB || bt.Info()&types.IsFloat == 0 {
 			return
 		}
-		y := b.Y
-		for {
-			if cv, ok := y.(*ssa.Convert); ok {
-				if yt, ok := cv.X.Type().Underlying().(*types.Basic); ok && yt.Info()&types.IsInteger != 0 {
-					if _, isC := cv.X.(*ssa.Const); !isC {
-						out = append(out, b)
-					}
-					return
-				}
-				y = cv.X
-				continue
-			}
-			if ct, ok := y.(*ssa.ChangeType); ok {
-				y = ct.X
-				continue
-			}
-			return
+		if countFactor(b.Y, 0) != nil {
+			out = append(out, b)
 		}
 	})
 	return out
@@ -522,4 +507,31 @@ func guardedCellDecrement(st *ssa.Store, k int64, loadOfCell func(ssa.Value) boo
 		}
 	}
 	return false
+}
+
+// countFactor finds, in a divisor, an integer count converted to float: the divisor itself or a factor of a product.
+func countFactor(y ssa.Value, depth int) ssa.Value {
+	if depth > 4 {
+		return nil
+	}
+	switch x := y.(type) {
+	case *ssa.Convert:
+		if yt, ok := x.X.Type().Underlying().(*types.Basic); ok && yt.Info()&types.IsInteger != 0 {
+			if _, isC := x.X.(*ssa.Const); !isC {
+				return x.X
+			}
+			return nil
+		}
+		return countFactor(x.X, depth+1)
+	case *ssa.ChangeType:
+		return countFactor(x.X, depth+1)
+	case *ssa.BinOp:
+		if x.Op == token.MUL {
+			if f := countFactor(x.X, depth+1); f != nil {
+				return f
+			}
+			return countFactor(x.Y, depth+1)
+		}
+	}
+	return nil
 }
